@@ -90,26 +90,42 @@ Proof.
       * apply repr_conv_intlike; auto. intros E2. subst T. discriminate.
 Qed.
 
-(* whatever path the dispatch takes, the stored objects are T(source item), item by item,
-   and exactly n items are consumed *)
+Lemma convm_conv b U T v : (vsz T = vsz U) -> convm b U T v = conv U T v.
+Proof. intros Hs. unfold convm. destruct T; try reflexivity. destruct U; try reflexivity. cbn [vsz] in Hs. lia. Qed.
+
+(* is the source item handed over as an rvalue? *)
+Definition moves (f : form) (rv : bool) (T U : vty) : bool :=
+  match dispatch f rv T U with PMove => true | PCopy => is_generated f | PMemcpy => false end.
+
+(* whatever path the dispatch takes, the stored objects are T(source item) - T(std::move(source
+   item)) where the source is consumed as an rvalue - item by item, and exactly n items are
+   consumed *)
 Theorem stored_is_converted f rv T U src n :
   wf_vty T -> Forall (in_range U) src ->
-  stored f rv T U src n = map (fun v => repr T (conv U T v)) (firstn n src) /\
+  stored f rv T U src n = map (fun v => repr T (convm (moves f rv T U) U T v)) (firstn n src) /\
   length (stored f rv T U src n) = Nat.min n (length src).
 Proof.
   intros Hw Hsrc.
-  assert (Hmain : stored f rv T U src n = map (fun v => repr T (conv U T v)) (firstn n src)).
-  { unfold stored. destruct (dispatch f rv T U) eqn:D; try reflexivity.
+  assert (Hmain : stored f rv T U src n = map (fun v => repr T (convm (moves f rv T U) U T v)) (firstn n src)).
+  { unfold stored, moves. destruct (dispatch f rv T U) eqn:D; try reflexivity.
     assert (Hc : memcpy_compatible T U = true).
     { unfold dispatch in D. destruct (is_range f).
       - destruct (has_data_and_size f && memcpy_compatible T U) eqn:E.
         + apply andb_true_iff in E. tauto.
         + destruct rv; discriminate.
       - destruct f; try discriminate; destruct (memcpy_compatible T U); try reflexivity; discriminate. }
-    apply map_ext_in. intros v Hv. symmetry. apply memcpy_compatible_sound; auto.
+    assert (Hsz : vsz T = vsz U).
+    { unfold memcpy_compatible in Hc. apply andb_true_iff in Hc. destruct Hc as [Hc _].
+      apply andb_true_iff in Hc. destruct Hc as [Hc _]. apply andb_true_iff in Hc. destruct Hc as [Hc _].
+      apply Z.eqb_eq in Hc. exact Hc. }
+    apply map_ext_in. intros v Hv. rewrite convm_conv by exact Hsz. symmetry. apply memcpy_compatible_sound; auto.
     rewrite Forall_forall in Hsrc. apply Hsrc. eapply In_firstn_c. exact Hv. }
   split; [exact Hmain|]. rewrite Hmain, map_length, firstn_length. reflexivity.
 Qed.
+
+(* for every pair but Handle <- Raw the value category does not matter *)
+Theorem value_category_irrelevant b U T v : ~ (T = VHandle /\ U = VRaw) -> convm b U T v = conv U T v.
+Proof. intros H. unfold convm. destruct T; try reflexivity. destruct U; try reflexivity. exfalso. apply H. split; reflexivity. Qed.
 
 (* lvalue sources are never moved from; an rvalue range that is not memcpy'd and a
    move_iterator are moved from exactly once per consumed item *)
